@@ -572,3 +572,132 @@ theorem normalize_pa_eq_normalize_canonical (puny : Str → Str) (o : Normalize.
     · exact Or.inr hs
 
 end Ural.Props.C05
+
+namespace Ural.Props.C05
+open Ural Ural.Py Ural.UrlParts Ural.Quote Ural.Normalize Ural.Fingerprint Ural.NormBridge Ural.Platform
+
+/-! ## (b) rewriting twice = rewriting once -/
+
+/-- the residual hypothesis of C19's facebook round trip, for a url: the record the parser returns
+(if any) has no field with a character that the url builders do not escape and that `urljoin` /
+`urlsplit` / `parse_qs` read as syntax (`Facebook.charsOk`) -/
+def FacebookReparsable (u : Str) : Prop :=
+  ∀ r, Facebook.parse_facebook_url u false = .ok (some r) → Facebook.charsOk r = true
+
+/-- a url that `parse_facebook_url(url)` (absolute urls only) recognises is a facebook url -/
+theorem is_facebook_url_of_parse (v : Str) (r : Facebook.Parsed)
+    (h : Facebook.parse_facebook_url v false = .ok (some r)) : Facebook.is_facebook_url v = .ok true := by
+  unfold Facebook.parse_facebook_url Facebook.resolveUrl at h
+  simp only [Bool.false_and, Bool.false_eq_true, if_false] at h
+  cases hf : Facebook.is_facebook_url v with
+  | error e => exact absurd hf (Ural.Props.C19.Facebook.is_facebook_url_total v e)
+  | ok b =>
+    cases b with
+    | true => rfl
+    | false => rw [hf] at h; simp [Functor.map, Except.map] at h
+
+/-- the facebook half is idempotent on the urls whose record is inside C19's round trip -/
+theorem facebookRewrite_idempotent (u v : Str) (hu : FacebookReparsable u)
+    (h : facebookRewrite u = .ok v) (hne : v ≠ u) :
+    Facebook.is_facebook_url v = .ok true ∧ facebookRewrite v = .ok v := by
+  unfold facebookRewrite at h
+  cases hp : Facebook.parse_facebook_url u false with
+  | error e => exact absurd hp (Ural.Props.C19.Facebook.parse_facebook_url_total u false e)
+  | ok o =>
+    rw [hp] at h
+    cases o with
+    | none =>
+      simp only [Except.ok.injEq] at h
+      exact absurd h.symm hne
+    | some r =>
+      simp only at h
+      obtain ⟨w, hw, hre⟩ := Ural.Props.C19.Facebook.reparse_of_parse_partial u false r hp (hu r hp)
+      rw [hw] at h
+      simp only [Except.ok.injEq] at h
+      subst h
+      have hpv := hre false
+      refine ⟨is_facebook_url_of_parse w r hpv, ?_⟩
+      unfold facebookRewrite
+      rw [hpv]
+      simp only [hw]
+
+/-- the youtube half is idempotent: every string, every trie that knows `www.youtube.com`; what
+it returns, when it is another string, is a youtube url and no facebook url -/
+theorem youtubeRewrite_idempotent (puny : Str → Str) (t : HostnameTrieSet.T) (hT : Youtube.KnowsWww puny t)
+    (u v : Str) (h : youtubeRewrite puny t u = .ok v) (hne : v ≠ u) :
+    Facebook.is_facebook_url v = .ok false ∧ Youtube.is_youtube_url puny t v = true ∧
+      youtubeRewrite puny t v = .ok v := by
+  unfold youtubeRewrite at h
+  cases hn : Youtube.normalize_youtube_url puny t u with
+  | error e => exact absurd hn (Ural.Props.C19.Youtube.normalize_youtube_url_total puny t u e)
+  | ok n =>
+    rw [hn] at h
+    simp only [Except.ok.injEq] at h
+    subst h
+    have hid := Ural.Props.C19.Youtube.normalize_youtube_idempotent puny t hT u n hn
+    -- `n` is the canonical url of a record: it starts with `https://www.youtube.com/`
+    have hcanon : ∃ tail, n = wwwPrefix ++ tail := by
+      unfold Youtube.normalize_youtube_url at hn
+      cases hp : Youtube.parse_youtube_url puny t u true with
+      | error e => exact absurd hp (Ural.Props.C19.Youtube.parse_youtube_url_total puny t u true e)
+      | ok o =>
+        rw [hp] at hn
+        cases o with
+        | none =>
+          simp only [Except.ok.injEq] at hn
+          exact absurd hn.symm hne
+        | some r =>
+          simp only [Except.ok.injEq] at hn
+          obtain ⟨tail, ht⟩ := recordUrl_www r
+          exact ⟨tail, by rw [← hn, ht]⟩
+    obtain ⟨tail, rfl⟩ := hcanon
+    refine ⟨is_facebook_url_www tail, is_youtube_url_www puny t hT tail, ?_⟩
+    unfold youtubeRewrite
+    rw [hid]
+
+/-- **(b) the platform rewriting is idempotent**: `platform (platform u) = platform u`, for every
+string `u` whose facebook record (if it is a facebook url the parser recognises) is inside C19's
+round trip (`FacebookReparsable`; no hypothesis on youtube urls and on all other strings), and
+every state `t` of the youtube trie that knows `www.youtube.com` -/
+theorem platform_idempotent (puny : Str → Str) (t : HostnameTrieSet.T) (hT : Youtube.KnowsWww puny t)
+    (u : Str) (hu : FacebookReparsable u) :
+    platformWith puny t (platformWith puny t u) = platformWith puny t u := by
+  by_cases hfix : platformWith puny t u = u
+  · rw [hfix, hfix]
+  · have hE := platformE_eq puny t u
+    generalize platformWith puny t u = v at hE hfix ⊢
+    have hEv := platformE_eq puny t v
+    suffices hs : platformE puny t v = .ok v by
+      rw [hs] at hEv
+      simp only [Except.ok.injEq] at hEv
+      exact hEv.symm
+    unfold platformE at hE
+    cases hf : Facebook.is_facebook_url u with
+    | error e => exact absurd hf (Ural.Props.C19.Facebook.is_facebook_url_total u e)
+    | ok b =>
+      rw [hf] at hE
+      cases b with
+      | true =>
+        simp only at hE
+        obtain ⟨h1, h2⟩ := facebookRewrite_idempotent u v hu hE hfix
+        unfold platformE
+        rw [h1]
+        exact h2
+      | false =>
+        simp only at hE
+        by_cases hy : Youtube.is_youtube_url puny t u = true
+        · simp only [hy, if_true] at hE
+          obtain ⟨h1, h2, h3⟩ := youtubeRewrite_idempotent puny t hT u v hE hfix
+          unfold platformE
+          rw [h1]
+          simp only [h2, if_true]
+          exact h3
+        · simp only [hy, Bool.false_eq_true, if_false, Except.ok.injEq] at hE
+          exact absurd hE.symm hfix
+
+/-- **(b) for the trie the module builds**: no hypothesis about the trie left -/
+theorem platform_idempotent_module (puny : Str → Str) (u : Str) (hu : FacebookReparsable u) :
+    platformConcrete puny (platformConcrete puny u) = platformConcrete puny u :=
+  platform_idempotent puny _ (Ural.Props.C19.Youtube.youtube_trie_knows_www puny) u hu
+
+end Ural.Props.C05
